@@ -101,17 +101,24 @@ Definition vtt_open (st : style) : str :=
 Definition vtt_close (st : style) : str :=
   (if st_b st then lit "</b>" else []) ++ (if st_u st then lit "</u>" else []) ++ (if st_i st then lit "</i>" else []).
 
-(* _group_cues_by_layout for nodes of one layout: first = (i == 0), prev_text = nodes[i-1] is TEXT *)
-Fixpoint vtt_go (first prev_text : bool) (ns : list node) : str :=
-  match ns with
-  | [] => []
-  | NText s :: t => vtt_text s ++ vtt_go false true t
-  | NStyle true st :: t => vtt_open st ++ vtt_go false false t
-  | NStyle false st :: t => vtt_close st ++ vtt_go false false t
-  | NBreak :: t =>
-      (if first then nbsp_ent else if prev_text then [] else nbsp_ent) ++ [10] ++ vtt_go false false t
+(* _group_cues_by_layout for nodes of one layout, as the loop it is.
+   State: s, first = (i == 0), prev_text = (nodes[i-1] is TEXT).  After a text node the whole buffer is
+   re-scanned for the arrow (repaired tree: "-->" may form across two text nodes). *)
+Definition arrow_fix (s : str) : str := replace (lit "-->") (lit "--&gt;") s.
+
+Definition vtt_step (arrowfix : bool) (acc : str * bool * bool) (n : node) : str * bool * bool :=
+  let '(s, first, prev_text) := acc in
+  match n with
+  | NText t => let s1 := s ++ vtt_text t in ((if arrowfix then arrow_fix s1 else s1), false, true)
+  | NStyle true st => (s ++ vtt_open st, false, false)
+  | NStyle false st => (s ++ vtt_close st, false, false)
+  | NBreak => (s ++ (if first then nbsp_ent else if prev_text then [] else nbsp_ent) ++ [10], false, false)
   end.
-Definition vtt_cue_text (ns : list node) : str := vtt_go true false ns.
+Definition vtt_cue_text_gen (arrowfix : bool) (ns : list node) : str :=
+  fst (fst (fold_left (vtt_step arrowfix) ns ([], true, false))).
+Definition vtt_cue_text (ns : list node) : str := vtt_cue_text_gen true ns.
+(* the pinned code: no re-scan *)
+Definition vtt_cue_text_prefix (ns : list node) : str := vtt_cue_text_gen false ns.
 
 (* _convert_caption with an empty caption style and no layout: timing line, cue text; nothing if the text is empty *)
 Definition vtt_caption (c : str * list node) : str :=
